@@ -213,7 +213,7 @@ func evalC07(c c07Case) *Failure {
 func init() { register("c07.case", evalC07) }
 
 var c07Ints = []int{0, 1, -1, 2, -2, 3, 4, -3, -4, 5, math.MaxInt32, math.MaxInt32 + 1, math.MinInt32, math.MaxInt64, math.MaxInt64 - 1, math.MinInt64, math.MinInt64 + 1, 1000000, -1000000}
-var c07Floats = []string{"0", "1", "-1", "2", "3", "(1", "(3", "-inf", "+inf", "inf", "1e308", "-1e308", "1e-320", "(-inf", "(+inf", "nan", "NaN", "4"}
+var c07Floats = []string{"", "(", "((1", "0", "1", "-1", "2", "3", "(1", "(3", "-inf", "+inf", "inf", "1e308", "-1e308", "1e-320", "(-inf", "(+inf", "nan", "NaN", "4"}
 var c07Keys = []string{"str", "empty", "num", "neg", "list", "set", "zset", "hash", "missing", ""}
 
 // c07Boundary draws a well-formed command whose numeric arguments sit on boundaries.
